@@ -257,6 +257,345 @@ def unwire(ts):
     return a
 
 
+# ---------------------------------------------------------------------------------------------- reference concrete syntax
+# Harness-side printer, lexer and precedence-climbing parser for the DOCUMENTED language (elf2sb.md grammar, C precedence, the token
+# spellings of the BD language).  Nothing here comes from the driver or from /repo: every input text the streams generate and every
+# expected value of an oracle is computed with these functions and `ref_eval` alone.  The Lean printer / lexer / reference parser are
+# compared with them (`s.compare`), so the two stay tied, but an unusable or wrong model can only ever produce disagreements.
+LEVEL_BIN = {"|": 3, "^": 4, "&": 5, "<<": 8, ">>": 8, "+": 9, "-": 9, "*": 10, "/": 10, "%": 10}
+LEVEL_CMP = {"||": 1, "&&": 2, "==": 6, "!=": 6, "<": 7, "<=": 7, ">": 7, ">=": 7}
+LEVEL_NEG = LEVEL_POS = 9          # yacc: a rule has the precedence of its last terminal (`MINUS expr` -> the additive level)
+# operator / punctuation tokens of the language in matching priority (longer spellings of a shared prefix first)
+SIMPLE_TOKENS = [("PLUS", "+"), ("MINUS", "-"), ("TIMES", "*"), ("DIVIDE", "/"), ("MOD", "%"), ("NOT", "~"), ("XOR", "^"), ("LSHIFT", "<<"),
+                 ("RSHIFT", ">>"), ("LOR", "||"), ("OR", "|"), ("LAND", "&&"), ("AND", "&"), ("LE", "<="), ("LT", "<"), ("GE", ">="), ("GT", ">"),
+                 ("EQ", "=="), ("NE", "!="), ("LNOT", "!"), ("RANGE", ".."), ("ASSIGN", "="), ("LPAREN", "("), ("RPAREN", ")"), ("LBRACE", "{"),
+                 ("RBRACE", "}"), ("COMMA", ","), ("PERIOD", "."), ("SEMI", ";"), ("COLON", ":"), ("QUESTIONMARK", "?"), ("DOLLAR", "$")]
+KEYWORDS = ["call", "constants", "extern", "erase", "false", "filters", "from", "jump", "load", "mode", "else", "info", "error", "enable",
+            "keywrap", "keystore_to_nv", "keystore_from_nv", "all", "no", "options", "raw", "section", "sources", "switch", "true", "yes", "if",
+            "defined", "warning", "sizeof", "unsecure", "jump_sp", "keyblob", "reset", "encrypt", "version_check", "sec", "nsec"]
+
+
+def _paren(ts):
+    return ["("] + ts + [")"]
+
+
+def py_tokens(a, m=0):
+    """syntax tree -> token list with minimal parentheses (same token notation as the driver: n<dec> i<name> o<op> c<op> ! D ( ) . z<letter>)"""
+    k = a[0]
+    if k == "L":
+        if a[1] < 0:
+            raise ValueError("negative literal")
+        return ["n%d" % a[1]]
+    if k == "V":
+        return ["i" + a[1]]
+    if k == "B":
+        lv = LEVEL_BIN[a[1]]
+        body = py_tokens(a[2], lv) + ["o" + a[1]] + py_tokens(a[3], lv + 1)
+        return body if m <= lv else _paren(body)
+    if k in ("N", "P"):
+        lv = LEVEL_NEG if k == "N" else LEVEL_POS
+        body = ["o-" if k == "N" else "o+"] + py_tokens(a[1], lv + 1)
+        return body if m <= lv else _paren(body)
+    if k == "Z":
+        body = py_tokens(a[2], 0) + [".", "z" + a[1]]
+        return body if m == 0 else _paren(body)
+    if k == "A":
+        return py_tokens(a[1], 0)
+    if k == "C":
+        lv = LEVEL_CMP[a[1]]
+        body = py_tokens(a[2], lv) + ["c" + a[1]] + py_tokens(a[3], lv + 1)
+        return body if m <= lv else _paren(body)
+    if k == "!":
+        inner = py_tokens(a[1], 0)
+        return ["!"] + (_paren(inner) if a[1][0] == "C" else inner)
+    if k == "D":
+        return ["D", "(", "i" + a[1], ")"]
+    raise ValueError(k)
+
+
+def py_canonical(toks):
+    """canonical text of a token list (the text of theorems lex_print / parse_print_text / eval_text): every token followed by one blank,
+    decimal numbers, an int-size suffix attached directly to the token before it; None when the list has no concrete syntax (a suffix
+    after a token that does not end in a hexadecimal digit, an identifier that is a keyword)"""
+    def text(t):
+        k = t[0]
+        if k in "nioc":
+            return t[1:]
+        return {"!": "!", "D": "defined", "(": "(", ")": ")"}.get(t)
+
+    def ident_ok(t):
+        w = t[1:]
+        return bool(w) and _is_id_start(w[0]) and all(_is_id_char(c) for c in w) and w not in KEYWORDS
+    out, i = [], 0
+    while i < len(toks):
+        t = toks[i]
+        if i + 2 < len(toks) and toks[i + 1] == "." and toks[i + 2][0] == "z":
+            if not (t[0] == "n" or (t[0] == "i" and ident_ok(t) and _is_hex(t[-1]))):
+                return None
+            out.append(text(t) + "." + toks[i + 2][1:] + " ")
+            i += 3
+            continue
+        if text(t) is None or (t[0] == "i" and not ident_ok(t)):
+            return None
+        out.append(text(t) + " ")
+        i += 1
+    return "".join(out)
+
+
+class LexValue(Exception):
+    """a token rule raises (e.g. the decimal literal `08`, the empty character literal)"""
+
+
+def _is_id_start(c):
+    return c == "_" or ("a" <= c <= "z") or ("A" <= c <= "Z")
+
+
+def _is_id_char(c):
+    return _is_id_start(c) or ("0" <= c <= "9")
+
+
+def _is_digit(c):
+    return "0" <= c <= "9"
+
+
+def _is_hex(c):
+    return _is_digit(c) or ("a" <= c <= "f") or ("A" <= c <= "F")
+
+
+def _lex_number(t, i):
+    """INT_LITERAL `\b([0-9]+[K]?|0[xX][0-9a-fA-F]+)\b` at position i (a digit): (value | LexValue, end) or None"""
+    j = i
+    while j < len(t) and _is_digit(t[j]):
+        j += 1
+    ds = t[i:j]
+    r2, is_k = j, False
+    if j < len(t) and t[j] == "K" and not (j + 1 < len(t) and _is_id_char(t[j + 1])):
+        r2, is_k = j + 1, True
+    if not (r2 < len(t) and _is_id_char(t[r2])):
+        if len(ds) > 1 and ds[0] == "0" and any(c != "0" for c in ds):
+            return LexValue, r2
+        v = int(ds)
+        return (v * 1024 if is_k else v), r2
+    if t[i] == "0" and i + 1 < len(t) and t[i + 1] in "xX":
+        j = i + 2
+        while j < len(t) and _is_hex(t[j]):
+            j += 1
+        if j == i + 2 or (j < len(t) and _is_id_char(t[j])):
+            return None
+        return int(t[i + 2:j], 16), j
+    return None
+
+
+def py_lex(t, sources=()):
+    """text of an expression -> tokens (driver notation); raises LexValue where a token rule raises"""
+    out, i, n = [], 0, len(t)
+    while i < n:
+        c = t[i]
+        p1 = t[i - 1] if i >= 1 else None
+        p2 = t[i - 2] if i >= 2 else None
+        if c in " \t\n":
+            i += 1
+        elif c == "#" or t.startswith("//", i):
+            j = t.find("\n", i)
+            i = n if j < 0 else j
+        elif t.startswith("/*", i) and t.find("*/", i + 2) >= 0:
+            i = t.find("*/", i + 2) + 2
+        elif c in "whb" and p1 == "." and p2 is not None and _is_hex(p2):
+            out.append("z" + c)
+            i += 1
+        elif _is_id_start(c):
+            j = i
+            while j < n and _is_id_char(t[j]):
+                j += 1
+            w = t[i:j]
+            if w in ("true", "yes"):
+                out.append("n1")
+            elif w in ("false", "no"):
+                out.append("n0")
+            elif w == "defined":
+                out.append("D")
+            elif w in KEYWORDS:
+                out.append("k" + w.upper())
+            elif w in sources:
+                out.append("S" + w)
+            else:
+                out.append("i" + w)
+            i = j
+        elif _is_digit(c):
+            if p1 is not None and _is_id_char(p1):
+                out.append("xERROR")
+                i += 1
+                continue
+            r = _lex_number(t, i)
+            if r is None:
+                out.append("xERROR")
+                i += 1
+            elif r[0] is LexValue:
+                raise LexValue()
+            else:
+                out.append("n%d" % r[0])
+                i = r[1]
+        elif c == "'":
+            eol = t.find("\n", i + 1)
+            j = t.find("'", i + 1, n if eol < 0 else eol)
+            if j < 0:
+                out.append("xERROR")
+                i += 1
+            elif j == i + 1:
+                raise LexValue()
+            else:
+                out.append("n%d" % int.from_bytes(t[i + 1:j].encode(), "big"))
+                i = j + 1
+        elif c == "$" and i + 1 < n and (_is_id_char(t[i + 1]) or t[i + 1] in ".*?-^[]"):
+            j = i + 1
+            while j < n and (_is_id_char(t[j]) or t[j] in ".*?-^[]"):
+                j += 1
+            out.append("xSECTION_NAME")
+            i = j
+        elif c == '"':
+            eol = t.find("\n", i + 1)
+            j = t.find('"', i + 1, n if eol < 0 else eol)
+            if j < 0:
+                out.append("xERROR")
+                i += 1
+            else:
+                out.append("q" + hx(t[i + 1:j]))
+                i = j + 1
+        else:
+            for name, lit in SIMPLE_TOKENS:
+                if t.startswith(lit, i):
+                    if name in ("PLUS", "MINUS", "TIMES", "DIVIDE", "MOD", "LSHIFT", "RSHIFT", "AND", "OR", "XOR"):
+                        out.append("o" + lit)
+                    elif name in ("LT", "LE", "GT", "GE", "EQ", "NE", "LAND", "LOR"):
+                        out.append("c" + lit)
+                    elif name == "LNOT":
+                        out.append("!")
+                    elif name in ("LPAREN", "RPAREN", "PERIOD"):
+                        out.append(lit)
+                    else:
+                        out.append("x" + name)
+                    i += len(lit)
+                    break
+            else:
+                out.append("xERROR")
+                i += 1
+    return out
+
+
+class _P:
+    """precedence climbing over a token list (documented levels); a method returns None where the text is not in the language"""
+
+    def __init__(self, ts):
+        self.ts = ts
+
+    def primary(self, i):
+        ts = self.ts
+        if i >= len(ts):
+            return None
+        t = ts[i]
+        if t[0] == "n":
+            return ("L", int(t[1:])), i + 1
+        if t[0] == "i":
+            return ("V", t[1:]), i + 1
+        if t == "(":
+            r = self.expr(i + 1, 0)
+            if r is None or r[1] >= len(ts) or ts[r[1]] != ")":
+                return None
+            return r[0], r[1] + 1
+        if t in ("o-", "o+"):
+            r = self.expr(i + 1, (LEVEL_NEG if t == "o-" else LEVEL_POS) + 1)
+            if r is None:
+                return None
+            return ("N" if t == "o-" else "P", r[0]), r[1]
+        return None
+
+    def expr(self, i, m):
+        r = self.primary(i)
+        if r is None:
+            return None
+        return self.loop(r[1], m, r[0])
+
+    def loop(self, i, m, l):
+        ts = self.ts
+        while True:
+            if i < len(ts) and ts[i][0] == "o":
+                op = ts[i][1:]
+                lv = LEVEL_BIN[op]
+                if m <= lv:
+                    r = self.expr(i + 1, lv + 1)
+                    if r is None:
+                        return None
+                    l, i = ("B", op, l, r[0]), r[1]
+                    continue
+                return l, i
+            if i + 1 < len(ts) and ts[i] == "." and ts[i + 1][0] == "z":
+                if m == 0:
+                    l, i = ("Z", ts[i + 1][1:], l), i + 2
+                    continue
+                return l, i
+            return l, i
+
+    def primary_b(self, i):
+        ts = self.ts
+        if i >= len(ts):
+            return None
+        t = ts[i]
+        if t == "!":
+            r = self.primary_b(i + 1)
+            return None if r is None else (("!", r[0]), r[1])
+        if t == "D":
+            if i + 3 < len(ts) + 0 and ts[i + 1] == "(" and ts[i + 2][0] == "i" and ts[i + 3] == ")":
+                return ("D", ts[i + 2][1:]), i + 4
+            return None
+        if t == "(":
+            r = self.bexpr(i + 1, 0)
+            if r is None or r[1] >= len(ts) or ts[r[1]] != ")":
+                return None
+            b, j = r[0], r[1] + 1
+            if b[0] == "A":
+                r2 = self.loop(j, 0, b[1])
+                return None if r2 is None else (("A", r2[0]), r2[1])
+            return b, j
+        r = self.expr(i, 0)
+        return None if r is None else (("A", r[0]), r[1])
+
+    def bexpr(self, i, m):
+        r = self.primary_b(i)
+        if r is None:
+            return None
+        l, i = r
+        ts = self.ts
+        while i < len(ts) and ts[i][0] == "c":
+            op = ts[i][1:]
+            lv = LEVEL_CMP[op]
+            if m > lv:
+                break
+            r = self.bexpr(i + 1, lv + 1)
+            if r is None:
+                return None
+            l, i = ("C", op, l, r[0]), r[1]
+        return l, i
+
+
+def py_parse_tokens(ts):
+    """token list -> bool_expr syntax tree, or None when it is not one bool_expr"""
+    try:
+        r = _P(ts).bexpr(0, 0)
+    except RecursionError:
+        return None
+    if r is None or r[1] != len(ts):
+        return None
+    return r[0]
+
+
+def py_parse_text(t):
+    """text -> bool_expr syntax tree of the documented language, or None (not in the language / a token rule raises)"""
+    try:
+        return py_parse_tokens(py_lex(t))
+    except LexValue:
+        return None
+
+
 # ---------------------------------------------------------------------------------------------- rendering tokens
 def render(tokens, rng, plain=False):
     """driver token list -> BD text; None if the int-size suffix cannot be written here (lexer look-behind)."""
@@ -335,14 +674,10 @@ def render(tokens, rng, plain=False):
     return "".join(out)
 
 
-def render_plain_tokens(a, drv):
+def render_plain_tokens(a):
     """tokens of a syntax tree as plain texts (decimal / hexadecimal numbers), for the mutation stream"""
-    ans = drv.ask("A ; " + " ".join(wire(a)))
-    parts = ans.split(" | ")
-    if len(parts) != 5:
-        return None
     out = []
-    for t in parts[0].split(" "):
+    for t in py_tokens(a):
         k, body = t[0], t[1:]
         if k == "n":
             out.append(hex(int(body)) if int(body) > 9 else body)
@@ -934,29 +1269,54 @@ def run(ck):
               "operations on a str operand (undefined identifier or string option inside an expression) are outside the model",
               "every call into the implementation runs under a 30 s alarm: a hang is reported as a failure")
     rng = ck.rng
-    if drv is None:
-        run_oracle_only(ck, real)
-        return
+    # Inputs, expected values and known-finding predicates are computed by the harness from the input alone (reference printer / lexer /
+    # parser / evaluator / statement reference above).  The model driver only ever feeds `compare`: when it does not build (None) or
+    # answers nonsense, the same inputs are generated, the same oracles run, and the run ends - at worst - with broken correspondences.
+    # `rom21` (drv_c04) is the boot-ROM side of Model/Sb2.lean (`namespace Rom`): written from the file format with its own constants,
+    # it references neither Generated/ nor the builder-side model, so its answers do not depend on /repo.
+    ck.spec_ops = {"rom21"}
+    mdl = Model(drv)
     for fn in (expr_streams, lexer_stream, duplicate_stream, program_streams):
         try:
-            fn(ck, real, drv, rng)
+            fn(ck, real, mdl, rng)
         except Exception as exc:  # noqa: BLE001
-            print("C19: stream group %s stopped: %s: %s (driver rc=%s)" % (fn.__name__, type(exc).__name__, exc, drv.proc.poll()), file=sys.stderr)
+            print("C19: stream group %s stopped: %s: %s (driver rc=%s)" % (fn.__name__, type(exc).__name__, exc,
+                                                                          drv.proc.poll() if drv is not None else "no driver"), file=sys.stderr)
             raise
 
 
-def run_oracle_only(ck, real):
-    """model does not build: the property oracle still runs on the implementation (fixed reference expressions)."""
-    s = ck.stream("expr_oracle_only", "fixed + exhaustive (<=2 operators over %s) flat expressions against the Python reference" % OPERANDS)
-    for a, o1, b in itertools.product(OPERANDS, BINOPS, OPERANDS):
-        for o2, c in itertools.product(BINOPS, OPERANDS):
-            txt = "%d %s %d %s %d" % (a, o1, b, o2, c)
-            want = flat_ref([a, b, c], [o1, o2])
-            if want is None:
-                continue
-            got = real.value(txt)
-            s.note(txt)
-            s.expect(got == want, {"text": txt}, "a BD constant expression does not evaluate to its arithmetic value", got, want)
+class Model:
+    """the native model driver - or nothing when the model does not build; its answers are correspondence material only"""
+
+    def __init__(self, drv):
+        self.drv = drv
+
+    def batch(self, lines):
+        lines = list(lines)
+        if self.drv is None:
+            return [None] * len(lines)
+        return self.drv.batch(lines)
+
+    def ask(self, line):
+        return self.batch([line])[0]
+
+
+def cmp_model(s, inp, real_v, model_v, what=None):
+    """correspondence: implementation vs model answer (skipped when there is no model; any malformed answer is a disagreement)"""
+    if model_v is None:
+        return
+    if what is None:
+        s.compare(inp, real_v, model_v)
+    else:
+        s.compare(inp, real_v, model_v, what)
+
+
+def fields(ans, sep, n):
+    """a driver answer split into exactly n fields, or None (no driver / answer of another shape)"""
+    if not isinstance(ans, str):
+        return None
+    parts = ans.split(sep)
+    return parts if len(parts) == n else None
 
 
 PREC = {"|": 3, "^": 4, "&": 5, "<<": 8, ">>": 8, "+": 9, "-": 9, "*": 10, "/": 10, "%": 10}
@@ -1025,7 +1385,7 @@ def expr_streams(ck, real, drv, rng):
                 got[i] = real.value(batch_txt[i])
         model = drv.batch(["X b " + hx(t) for t in batch_txt])
         for i, t in enumerate(batch_txt):
-            s.compare({"text": t}, got[i], model[i])
+            cmp_model(s, {"text": t}, got[i], model[i])
             s.expect(got[i] == batch_want[i], {"text": t}, "a BD constant expression does not evaluate to its arithmetic value "
                      "(ordinary integer arithmetic, C precedence)", got[i], batch_want[i])
         batch_txt.clear()
@@ -1069,27 +1429,34 @@ def expr_streams(ck, real, drv, rng):
     answers = drv.batch(["A %s ; %s" % (varspec, " ".join(wire(a))) for a in asts])
     texts, keep, canon_cases = [], [], []
     for a, ans in zip(asts, answers):
-        parts = ans.split(" | ")
-        if len(parts) != 5:
-            s.compare({"ast": repr(a)}, "5 fields", ans, "driver could not print the syntax tree")
-            continue
-        toks, spec, model_tok, rt, canon_hex = parts
+        # text and expected value: harness printer + reference evaluator (nothing of the driver's answer is used for them)
         want = ref_canon(a, env)
-        txt = render(toks.split(" "), rng)
-        # the Lean Spec and the executable reference are the same function on every case
-        s.compare({"ast": repr(a)}, want, spec, "Lean Spec.evalB differs from the harness's reference evaluator")
-        s.compare({"ast": repr(a)}, spec, model_tok, "evalB (refParseB (print b)) differs from Spec.evalB b")
-        s.compare({"ast": repr(a)}, "rt", rt, "refParseB (prB b) is not b")
-        # `Lexable` (Lean) and the renderer agree on which trees have a concrete syntax
-        s.compare({"ast": repr(a)}, "-" if txt is None else "text", "-" if canon_hex == "-" else "text",
-                  "Lean `Lexable` and the harness renderer disagree on whether the tree has a concrete syntax")
+        toks = py_tokens(a)
+        txt = render(toks, rng)
+        ctext = py_canonical(toks)
+        parts = fields(ans, " | ", 5)
+        if ans is not None and parts is None:
+            s.compare({"ast": repr(a)}, "5 fields", ans, "driver could not print the syntax tree")
+        if parts is not None:
+            mtoks, spec, model_tok, rt, canon_hex = parts
+            s.compare({"ast": repr(a)}, " ".join(toks), mtoks, "Lean printer prB (levels of the current precedence table) differs from the "
+                      "harness's reference printer (documented levels)")
+            # the Lean Spec and the executable reference are the same function on every case
+            s.compare({"ast": repr(a)}, want, spec, "Lean Spec.evalB differs from the harness's reference evaluator")
+            s.compare({"ast": repr(a)}, spec, model_tok, "evalB (refParseB (print b)) differs from Spec.evalB b")
+            s.compare({"ast": repr(a)}, "rt", rt, "refParseB (prB b) is not b")
+            # `Lexable` (Lean) and the renderer agree on which trees have a concrete syntax
+            s.compare({"ast": repr(a)}, "-" if txt is None else "text", "-" if canon_hex == "-" else "text",
+                      "Lean `Lexable` and the harness renderer disagree on whether the tree has a concrete syntax")
+            # the canonical text: Lean `render` (the text the theorems speak about) = the harness's own rendering
+            s.compare({"ast": repr(a)}, "-" if ctext is None else hx(ctext), canon_hex, "canonical text: Lean `render` differs from the harness's")
+        if ctext is not None and py_parse_text(ctext) == a:
+            canon_cases.append((ctext, a, want))
         if txt is None:
             s.note(repr(a), nontrivial=False, cls="int-size-after-non-literal (no concrete syntax)")
             continue
         texts.append(txt)
         keep.append((a, want))
-        if canon_hex != "-":
-            canon_cases.append((bytes.fromhex(canon_hex).decode(), a, want))
     models = drv.batch(["X b %s %s" % (hx(t), varspec) for t in texts])
     CH = 25
     for i in range(0, len(texts), CH):
@@ -1101,7 +1468,7 @@ def expr_streams(ck, real, drv, rng):
         for j, t in enumerate(chunk):
             a, want = keep[i + j]
             s.note(t, nontrivial=want != "E", cls="d%d/%s" % (min(depth_of(a), 7), "error" if want == "E" else "value"))
-            s.compare({"text": t, "pre": pre}, gots[j], models[i + j])
+            cmp_model(s, {"text": t, "pre": pre}, gots[j], models[i + j])
             s.expect(gots[j] == want, {"text": t, "pre": pre, "ast": repr(a)},
                      "a BD constant expression does not evaluate to the value the language semantics prescribes", gots[j], want)
 
@@ -1128,11 +1495,7 @@ def expr_streams(ck, real, drv, rng):
             ".b", "~", "defined(a)"]
     muts = []
     for a in asts[: ck.budget(3000, 60000)]:
-        ans_toks = None
-        try:
-            ans_toks = render_plain_tokens(a, drv)
-        except Exception:  # noqa: BLE001
-            ans_toks = None
+        ans_toks = render_plain_tokens(a)
         if not ans_toks:
             continue
         t = list(ans_toks)
@@ -1150,29 +1513,35 @@ def expr_streams(ck, real, drv, rng):
         muts.append(" ".join(t).replace(" .b", ".b").replace(" .h", ".h").replace(" .w", ".w"))
     parsed = drv.batch(["T " + hx(t) for t in muts])
     safe = []
-    for t, pw in zip(muts, parsed):
-        if pw != "E":
+    for t, mpw in zip(muts, parsed):
+        # the tree the text denotes: harness lexer + reference parser (the Lean lexer + reference parser are compared with it)
+        pa = py_parse_text(t)
+        pw = "E" if pa is None else " ".join(wire(pa))
+        cmp_model(s, {"text": t}, pw, mpw, "Lean lexer + reference parser (current precedence table) read the text differently from the "
+                  "harness's lexer + reference parser (documented grammar)")
+        if pa is not None:
             try:
-                ref_eval(unwire(pw.split(" ")), env)
+                ref_eval(pa, env)
             except Huge:
                 s.note(t, nontrivial=False, cls="huge-shift-skipped")
                 continue
             except StrOp:
                 # an operation on a str (undefined identifier): modelled, but no oracle here (see stream undefined_ident)
-                if not str_bound_ok(unwire(pw.split(" ")), env):
+                if not str_bound_ok(pa, env):
                     s.note(t, nontrivial=False, cls="huge-str-skipped")
                     continue
-                pw = "E"
+                pa = None
             except RefErr:
                 pass
-        safe.append((t, pw))
-    models = drv.batch(["X c %s %s" % (hx(t), varspec) for t, _pw in safe])
-    for (t, pw), m in zip(safe, models):
+        safe.append((t, pa))
+    models = drv.batch(["X c %s %s" % (hx(t), varspec) for t, _pa in safe])
+    for (t, pa), m in zip(safe, models):
         g = real.value(t, pre)
         s.note(t, nontrivial=g != "E", cls="accepted" if g != "E" else "refused")
-        s.compare({"text": t, "pre": pre}, g, m)
-        if pw != "E":
-            w = ref_canon(unwire(pw.split(" ")), env)
+        cmp_model(s, {"text": t, "pre": pre}, g, m)
+        if pa is not None:
+            pw = " ".join(wire(pa))
+            w = ref_canon(pa, env)
             s.expect(g == w, {"text": t, "pre": pre, "parsed_as": pw}, "an accepted expression does not evaluate to the arithmetic value of its "
                      "syntax tree (tree as parsed by the reference parser)", g, w)
 
@@ -1195,30 +1564,36 @@ def expr_streams(ck, real, drv, rng):
         texts.append(" ".join(out))
     parsed = drv.batch(["T " + hx(t) for t in texts])
     safe = []
-    for t, pw in zip(texts, parsed):
-        if pw != "E":
+    for t, mpw in zip(texts, parsed):
+        # the tree the text denotes: harness lexer + reference parser (the Lean lexer + reference parser are compared with it)
+        pa = py_parse_text(t)
+        pw = "E" if pa is None else " ".join(wire(pa))
+        cmp_model(s, {"text": t}, pw, mpw, "Lean lexer + reference parser (current precedence table) read the text differently from the "
+                  "harness's lexer + reference parser (documented grammar)")
+        if pa is not None:
             try:
-                ref_eval(unwire(pw.split(" ")), env)
+                ref_eval(pa, env)
             except Huge:
                 s.note(t, nontrivial=False, cls="huge-shift-skipped")
                 continue
             except StrOp:
                 # an operation on a str (undefined identifier): modelled, but no oracle here (see stream undefined_ident)
-                if not str_bound_ok(unwire(pw.split(" ")), env):
+                if not str_bound_ok(pa, env):
                     s.note(t, nontrivial=False, cls="huge-str-skipped")
                     continue
-                pw = "E"
+                pa = None
             except RefErr:
                 pass
-        safe.append((t, pw))
-    models = drv.batch(["X c %s %s" % (hx(t), varspec) for t, _pw in safe])
-    for (t, pw), m in zip(safe, models):
+        safe.append((t, pa))
+    models = drv.batch(["X c %s %s" % (hx(t), varspec) for t, _pa in safe])
+    for (t, pa), m in zip(safe, models):
         g = real.value(t, pre)
         s.note(t, nontrivial=g != "E", cls="accepted" if g != "E" else "refused")
-        s.compare({"text": t, "pre": pre}, g, m)
-        if pw != "E":
+        cmp_model(s, {"text": t, "pre": pre}, g, m)
+        if pa is not None:
+            pw = " ".join(wire(pa))
             # what the reference parser made of the text, evaluated by the reference semantics
-            w = ref_canon(unwire(pw.split(" ")), env)
+            w = ref_canon(pa, env)
             s.expect(g == w, {"text": t, "pre": pre, "parsed_as": pw}, "an accepted expression does not evaluate to the arithmetic value of its "
                      "syntax tree (tree as parsed by the reference parser)", g, w)
 
@@ -1263,7 +1638,7 @@ def lexer_stream(ck, real, drv, rng):
                 txt = defs[i].split("=", 1)[1].strip()[:-1]
                 wirereq += [name, "E", hx(txt)]
         ans = drv.ask(" ".join(wirereq))
-        s.compare({"text": text}, got, ans.split(" # ")[0])
+        cmp_model(s, {"text": text}, got, None if ans is None else ans.split(" # ")[0])
 
 
 def duplicate_stream(ck, real, drv, rng):
@@ -1293,7 +1668,7 @@ def duplicate_stream(ck, real, drv, rng):
         got, _raw = real.parse(text)
         ans = drv.ask(" ".join(["P", "PROG"] + wirereq))
         s.note(text)
-        s.compare({"text": text}, got, ans.split(" # ")[0])
+        cmp_model(s, {"text": text}, got, None if ans is None else ans.split(" # ")[0])
 
 
 def rom_expected(cmds):
@@ -1385,13 +1760,13 @@ def undefined_stream(ck, real, drv, rng, envwire):
         gotcfg, _raw = real.parse(text)
         gotc, _hdr = real.load(text)
         ans = drv.ask(" ".join(["P"] + envwire + ["PROG"] + wirereq))
-        parts = ans.split(" # ")
+        parts = fields(ans, " # ", 4)
         s.note(text, cls=("accepted" if gotc != "E" else "refused") + "/" + kind)
-        if len(parts) != 4:
+        if ans is not None and parts is None:
             s.compare(inp, "4 fields", ans, "driver rejected the request")
-            continue
-        s.compare(inp, gotcfg, parts[0], "configuration of BDParser.parse differs from the model")
-        s.compare(inp, gotc, parts[1], "commands of load_from_config differ from the model")
+        if parts is not None:
+            s.compare(inp, gotcfg, parts[0], "configuration of BDParser.parse differs from the model")
+            s.compare(inp, gotc, parts[1], "commands of load_from_config differ from the model")
         # reference: `foo`, `bar` are undefined -> the constant has no value -> the statement has no meaning
         if form.strip() != "foo" and not form.startswith("defined(foo)"):
             s.expect(gotc == "E", inp, "a command operand computed from an undefined identifier is translated instead of refused", gotc, "E",
@@ -1428,20 +1803,19 @@ def program_streams(ck, real, drv, rng):
     n = ck.budget(1000, 17000)
     for it in range(n):
         unsup = rng.random() < 0.12
-        prog = gen_program(rng, real, drv, unsup)
+        prog = gen_program(rng, real, unsup)
         if prog is None:
             continue
         text, wirereq, ref, extern = prog["text"], prog["wire"], prog["ref"], prog["extern"]
         inp = {"text": text, "extern": extern}
         gotcfg, _raw = real.parse(text, extern)
         ans = drv.ask(" ".join(["P"] + ["EXT %s" % hx(e) for e in extern] + envwire + ["PROG"] + wirereq))
-        parts = ans.split(" # ")
-        if len(parts) != 4:
-            s.compare(inp, "4 fields", ans, "driver rejected the request")
-            continue
-        mcfg, mcmds, mspec, muids = parts
+        parts = fields(ans, " # ", 4)
         st = su if unsup else s
-        st.compare(inp, gotcfg, mcfg, "configuration of BDParser.parse differs from the model")
+        if ans is not None and parts is None:
+            st.compare(inp, "4 fields", ans, "driver rejected the request")
+        mcfg, mcmds, mspec, muids = parts if parts is not None else (None, None, None, None)
+        cmp_model(st, inp, gotcfg, mcfg, "configuration of BDParser.parse differs from the model")
         if unsup:
             gotc, _h = real.load(text, extern)
             st.note(text, cls=prog["unsup_kind"])
@@ -1461,34 +1835,40 @@ def program_streams(ck, real, drv, rng):
         gotc, hdr = real.load(text, extern)
         st.expect(gotc != "HANG", inp, "load_from_config does not terminate on this program (an unsupported operand must be refused with an error)",
                   gotc, "a result or an error")
-        # model commands: crypto operands -> bytes via SPSDK's KeyBlob
-        mc = crypto_expand(real, mcmds)
-        gotc_m = mask_keywrap(gotc, mc)
-        st.compare(inp, gotc_m, mc, "commands of load_from_config differ from the model")
+        # model commands: crypto operands -> bytes via SPSDK's KeyBlob (correspondence only; a malformed answer is a disagreement)
+        if mcmds is not None:
+            try:
+                mc = crypto_expand(real, mcmds)
+                st.compare(inp, mask_keywrap(gotc, mc), mc, "commands of load_from_config differ from the model")
+            except (ValueError, IndexError):
+                st.compare(inp, gotc, mcmds, "commands of load_from_config differ from the model (answer not in command notation)")
         # the Lean Spec and the reference agree statement by statement
         refspec = "|".join(";".join(c if c is not None else "?" for c in sec) for sec in ref["cmds"])
-        st.compare(inp, refspec, mspec, "Lean Spec.cmdOf differs from the harness's statement reference")
+        cmp_model(st, inp, refspec, mspec, "Lean Spec.cmdOf differs from the harness's statement reference")
         st.note(text, nontrivial=gotc != "E", cls="accepted" if gotc != "E" else "refused")
-        if real.last_uids is not None and gotc != "E" and ";" in muids:
-            m_u, s_u = muids.split(";")
+        if real.last_uids is not None and gotc != "E":
             got_u = ",".join(str(u) for u in real.last_uids)
-            st.compare(inp, got_u, m_u, "boot section ids of load_from_config differ from the model")
             want_u = ",".join(str(x) for x in prog["section_ids"])
-            st.compare(inp, want_u, s_u, "Lean Spec.sectionUids differs from the ids the generator wrote")
+            if muids is not None:
+                m_u, _sep, s_u = muids.partition(";")
+                st.compare(inp, got_u, m_u, "boot section ids of load_from_config differ from the model")
+                st.compare(inp, want_u, s_u, "Lean Spec.sectionUids differs from the ids the generator wrote")
             st.expect(got_u == want_u, inp, "a boot section does not carry the id written in `section (id)`", got_u, want_u)
         for k in prog["kinds"]:
             st.hist["stmt:" + k] = st.hist.get("stmt:" + k, 0) + 1
         # oracle: every supported statement -> exactly the stated command
         all_supported = all(c is not None for sec in ref["cmds"] for c in sec) and ref["header"] is not None
         if all_supported:
+            # expected commands and the known-finding predicates: reference and input only (never the model's answer)
             want = crypto_expand(real, refspec)
+            got_w = mask_keywrap(gotc, want)
             finding = None
-            if gotc_m != want and gotc != "E":
+            if got_w != want and gotc != "E":
                 # known findings: localise the differing statements
-                finding = classify_known(prog, gotc_m, want)
+                finding = classify_known(prog, got_w, want)
             elif gotc == "E" and want != "E":
                 finding = classify_known_refusal(prog)
-            st.expect(mask_keywrap(gotc, want) == want, inp, "a supported statement does not become exactly the one command with the stated "
+            st.expect(got_w == want, inp, "a supported statement does not become exactly the one command with the stated "
                       "operands", gotc, want, finding=finding)
             if hdr is not None and gotc != "E":
                 st.expect(hdr == ref["header"], inp, "flags / versions / build number of the options block are not the ones in the image header",
@@ -1505,9 +1885,17 @@ def program_streams(ck, real, drv, rng):
                     if blob not in (None, "HANG"):
                         ra = rom.ask("rom21 %s %s" % (real.kek_hex, blob.hex()))
                         ok = ra.startswith("ok:") and "sections=" in ra
+                        if not ok and not ra.startswith("E:rom:"):
+                            # neither a decoded file nor a rejection by the ROM: the ROM reference gave no usable answer
+                            e2e.compare(inp, "ok:… | E:rom:…", ra[:120], "the boot ROM reference (drv_c04 rom21) gave no usable answer")
+                            continue
                         e2e.expect(ok, inp, "the boot ROM model does not accept the SB file produced from the BD program", ra[:120], "ok:…")
                         if ok:
                             secs = ra[ra.index("sections=") + 9:].split("|") if ra[ra.index("sections=") + 9:] else []
+                            if not all("[" in g and g.split(":")[0].isdigit() for g in secs):
+                                e2e.compare(inp, "id:[commands]|…", ra[ra.index("sections="):][:120], "answer of the boot ROM reference is not in "
+                                            "section notation")
+                                continue
                             good = len(secs) == len(exp_secs) and all(rom_match(g[g.index("["):], e) for g, e in zip(secs, exp_secs))
                             e2e.expect(good, inp, "the command list the boot ROM reads from the produced SB file is not the one the BD program "
                                        "states (one command per statement, stated operands)", ra[ra.index("sections="):][:600], str(exp_secs)[:600])
@@ -1524,7 +1912,7 @@ def program_streams(ck, real, drv, rng):
         else:
             # statements outside the supported subset: whatever is accepted must still be right for the supported ones
             if gotc != "E":
-                got_secs = [x.split(";") if x else [] for x in gotc_m.split("|")]
+                got_secs = [x.split(";") if x else [] for x in gotc.split("|")]
                 ok_shape = len(got_secs) == len(ref["cmds"]) and all(len(g) == len(r) for g, r in zip(got_secs, ref["cmds"]))
                 st.expect(ok_shape, inp, "the number of commands is not the number of statements", gotc, refspec)
                 if ok_shape:
@@ -1620,7 +2008,7 @@ def classify_known_refusal(prog):
 ADDR_POOL = [0, 4, 0x10, 0x100, 0x1000, 0x8000, 0x20000000, 0x08001000, 0xFFFFFFF0, 0xFFFFFFFC, 0xFFFFFFFF]
 
 
-def gen_program(rng, real, drv, unsup):
+def gen_program(rng, real, unsup):
     # `risky` programs may contain statements SPSDK refuses (call, reset, missing files, unknown memories, out-of-range
     # addresses, odd blob sizes …); the others consist of supported statements only, so that most programs are accepted
     risky = rng.random() < 0.3
@@ -1895,14 +2283,13 @@ def gen_program(rng, real, drv, unsup):
         sid = rng.choice([0, 1, 2, 5, 7])
         sections.append(stmts)
         sec_recs.append((E(mk_int(sid, names_int)), sid, stmts))
-    # ---- print all expressions in one batch through the Lean printer
-    reqs = ["A ; " + " ".join(wire(t.ast if t.ast[0] in "AC!D" else ("A", t.ast))) for t in asts]
-    answers = drv.batch(reqs) if reqs else []
-    for t, ans in zip(asts, answers):
-        parts = ans.split(" | ")
-        if len(parts) != 5:
+    # ---- print all expressions with the harness's reference printer (minimal parentheses for the documented levels)
+    for t in asts:
+        try:
+            toks = py_tokens(t.ast)
+        except ValueError:
             return None
-        t.text = render(parts[0].split(" "), rng, plain=rng.random() < 0.5)
+        t.text = render(toks, rng, plain=rng.random() < 0.5)
         if t.text is None:
             return None
 
